@@ -94,6 +94,12 @@ def templates():
     add('direct-plus-mutual', 2, ['E', 'X'], ['1', '+', '.'], lambda n: [
         gs.Rule(n['E'], A(S(C(n['E']), T('+'), C('t')), C(n['X']))),
         gs.Rule(n['X'], A(S(C(n['E']), T('.'), C('t')), C('t'))), gs.Rule('t', ONE)])
+    add('lr-under-right-recursion', 2, ['E'], ['1', '^', '!'], lambda n: [
+        gs.Rule('f', A(S(C(n['E']), T('^'), C('f')), C(n['E']))),
+        gs.Rule(n['E'], A(S(C(n['E']), T('!')), C('t'))), gs.Rule('t', ONE)], entries=['E'])
+    add('lr-retried-after-backtrack', 2, ['E'], ['1', '+', '='], lambda n: [
+        gs.Rule('stmt', A(S(C(n['E']), T('='), C(n['E'])), C(n['E']))),
+        gs.Rule(n['E'], A(S(C(n['E']), T('+'), C('t')), C('t'))), gs.Rule('t', ONE)], entries=['E'])
     add('mutual-three', 3, ['E', 'X', 'Y'], ['1', '+', '-', '*'], lambda n: [
         gs.Rule(n['E'], A(S(C(n['X']), T('+'), C('t')), C('t'))),
         gs.Rule(n['X'], A(S(C(n['Y']), T('-'), C('t')), C('t'))),
@@ -126,6 +132,24 @@ def guarded(f, *a, **k):
         return ('exc', 'Timeout', '')
     finally:
         signal.setitimer(signal.ITIMER_REAL, 0)
+
+
+def reused_parse(parser, text, start):
+    import contextlib
+    import io
+    from tatsu.exceptions import FailedParse, ParseException
+    try:
+        with contextlib.redirect_stderr(io.StringIO()):
+            v = parser.parse(text, start=start)
+        return ('ok', impl.norm(v))
+    except FailedParse as e:
+        return ('fail', type(e).__name__, getattr(e, 'pos', None))
+    except ParseException as e:
+        return ('fail', type(e).__name__, None)
+    except RecursionError:
+        return ('exc', 'RecursionError', '')
+    except Exception as e:  # noqa
+        return ('exc', type(e).__name__, str(e)[:200])
 
 
 def left_fold(tokens):
@@ -169,9 +193,11 @@ def shard(m, items, maxlen=5):
         ref = Ref(g, Cfg())
         inputs = list(gs.inputs(tpl['tokens'], maxlen))
         m.note('templates', tname)
+        extra_starts = [r.name for r in rules if r.name in ('f', 'stmt')]
+        reused = pcls()    # one generated parser object reused for every input of this program
         for t in inputs:
             # both the anchored parse (top: start $) and the prefix parse (start=...)
-            for st in ('top', start):
+            for st in ['top', start] + extra_starts:
                 a = guarded(impl.parse, model, t, start=st)
                 b = guarded(c02.generated_parse, pcls, t, start=st)
                 m.add('evaluations', 2)
@@ -185,6 +211,10 @@ def shard(m, items, maxlen=5):
                     continue
                 if a[0] != b[0] or (a[0] == 'ok' and a[1] != b[1]):
                     m.violation(f'i/model-generated-differ/{tname}', grammar=label, start=st, input=t, model=a, generated=b)
+                c = guarded(reused_parse, reused, t, st)
+                m.add('evaluations')
+                if c != b:
+                    m.violation(f'i/reused-generated-parser-differs/{tname}', grammar=label, start=st, input=t, fresh=b, reused=c)
                 if tpl['tier'] == 2:
                     try:
                         want = ref.parse(t, start=st)
